@@ -24,33 +24,33 @@ var errInjected = errors.New("injected failure")
 
 // Ev is one entry of the recorded history.
 type Ev struct {
-	Seq  uint64
-	K    string
-	C    int // connection (dial) number, 0 = none
-	P    packet.Generic
-	Err  error
-	S    string
-	N    int
-	A    int
-	At   time.Duration
+	Seq uint64
+	K   string
+	C   int // connection (dial) number, 0 = none
+	P   packet.Generic
+	Err error
+	S   string
+	N   int
+	A   int
+	At  time.Duration
 }
 
 const (
-	EvDial      = "dial"       // the client dialled
-	EvSend      = "cl-send"    // client entered Send on its conn
-	EvSent      = "cl-sent"    // that Send returned
-	EvRecv      = "cl-recv"    // client's Receive returned
-	EvClose     = "cl-close"   // client closed its conn
-	EvSess      = "session"    // session operation (S = op)
-	EvBRecv     = "br-recv"    // scripted broker decoded a packet from the client
-	EvBSend     = "br-send"    // scripted broker wrote a packet
-	EvBEOF      = "br-eof"     // scripted broker saw the connection end
-	EvCallback  = "callback"   // client callback invoked
-	EvAPI       = "api"        // API call issued (S = name)
-	EvAPIRet    = "api-ret"    // API call returned
-	EvFuture    = "future"     // a future resolved (S = result)
-	EvFault     = "fault"
-	EvNote      = "note"
+	EvDial     = "dial"     // the client dialled
+	EvSend     = "cl-send"  // client entered Send on its conn
+	EvSent     = "cl-sent"  // that Send returned
+	EvRecv     = "cl-recv"  // client's Receive returned
+	EvClose    = "cl-close" // client closed its conn
+	EvSess     = "session"  // session operation (S = op)
+	EvBRecv    = "br-recv"  // scripted broker decoded a packet from the client
+	EvBSend    = "br-send"  // scripted broker wrote a packet
+	EvBEOF     = "br-eof"   // scripted broker saw the connection end
+	EvCallback = "callback" // client callback invoked
+	EvAPI      = "api"      // API call issued (S = name)
+	EvAPIRet   = "api-ret"  // API call returned
+	EvFuture   = "future"   // a future resolved (S = result)
+	EvFault    = "fault"
+	EvNote     = "note"
 )
 
 func snap(p packet.Generic) packet.Generic {
@@ -139,17 +139,17 @@ func (w *World) StopPark() {
 
 // DialBehaviour scripts what a dial and the broker behind it do.
 type DialBehaviour struct {
-	Refuse          bool // Dial returns an error
+	Refuse            bool // Dial returns an error
 	ConnectUnsendable bool // the first write on the connection fails
-	Connack         int  // 0 accept, 1..5 refuse with that code, -1 never answer, -2 answer with a wrong packet
-	SessionPresent  bool
-	AckMode         int  // 0 prompt, 1 deferred (driver releases), 2 never
-	SubFail         bool // SUBACKs carry the failure code
-	NoSuback        bool // SUBSCRIBEs are never answered
-	DropAfterRecv   int  // cut the link after the broker has read this many packets (0 = off)
-	FailSendN       int  // the client's n-th Send on this conn fails (before writing)
-	FailSendPost    bool // ... after the packet went out
-	FailRecvN       int  // the client's n-th Receive fails
+	Connack           int  // 0 accept, 1..5 refuse with that code, -1 never answer, -2 answer with a wrong packet
+	SessionPresent    bool
+	AckMode           int  // 0 prompt, 1 deferred (driver releases), 2 never
+	SubFail           bool // SUBACKs carry the failure code
+	NoSuback          bool // SUBSCRIBEs are never answered
+	DropAfterRecv     int  // cut the link after the broker has read this many packets (0 = off)
+	FailSendN         int  // the client's n-th Send on this conn fails (before writing)
+	FailSendPost      bool // ... after the packet went out
+	FailRecvN         int  // the client's n-th Receive fails
 }
 
 func NewWorld(seed uint64, res *core.Result) *World {
@@ -233,14 +233,14 @@ type Conn struct {
 	cutAtDeliv   int
 
 	// scripted broker state
-	inbuf    []byte
-	BRecv    []*Ev
-	BSent    []*Ev
-	BEOF     bool
-	Pending  []packet.Generic // deferred acknowledgements
-	Connect  *packet.Connect
-	nextID   uint16
-	brecvN   int
+	inbuf   []byte
+	BRecv   []*Ev
+	BSent   []*Ev
+	BEOF    bool
+	Pending []packet.Generic // deferred acknowledgements
+	Connect *packet.Connect
+	nextID  uint16
+	brecvN  int
 }
 
 func (c *Conn) Send(pkt packet.Generic, async bool) error {
